@@ -1,6 +1,6 @@
 /-
-C10 — specification oracle ("judge"): decides, for a trace of observable events (the canonical output
-lines of either the model or the real driver), whether property C10 held on it:
+C10 — specification oracle ("judge"): decides, for a history of observable events (`Ev`: the canonical output
+lines of either the model or the real driver, as data), whether property C10 held on it:
 
   every scheduled call_out that is not removed fires exactly once, with its argument, no earlier than
   its delay (minimum 1) and no later than the first tick at or after that time; remove/find report the
@@ -8,30 +8,56 @@ lines of either the model or the real driver), whether property C10 held on it:
   in one call_out neither loses nor repeats the others.
 
 The judge knows nothing about wheels, slots or deltas: it keeps the set of pending (owner, fn, tag, due).
+`judgeEv` is pure data -> data; the text of the violations is produced by `Violation.render` in Drive.lean, and
+implementation traces are parsed into `Ev` by `parseEv` in Drive.lean.
 -/
-import NV.Common.Proto
+import NV.C10.Model
 
 namespace NV.C10
 
-open NV.Proto
-
 structure Pend where
-  owner : String
-  fn : String
+  owner : Nat
+  fn : Nat
   tag : String
-  due : Int
+  due : Int            -- virtual time (relative to T0)
   handle : Int
-  deriving Repr, BEq
+  deriving Repr, DecidableEq
+
+/-- what the oracle can object to -/
+inductive Violation where
+  | nestedTick (e : Ev)
+  | malformed (line : String)
+  | notFired (owner : Nat) (tag : String) (due tick : Int)
+  | scheduledByDestructed (e : Ev)
+  | callOutRefused (e : Ev)
+  | handleReused (e : Ev)
+  | fireOutsideTick (e : Ev)
+  | fireUnscheduled (owner fn : Nat) (tag : String) (t : Int)
+  | fireEarly (owner : Nat) (tag : String) (due t : Int)
+  | fireDestructedOwner (owner : Nat) (tag : String)
+  | removeHandleAnswer (owner : Nat) (tag : String) (got want : Int)
+  | removeHandleNothingPending (owner : Nat) (tag : String) (got : Int)
+  | findHandleAnswer (owner : Nat) (tag : String) (got want : Int)
+  | findHandleNothingPending (owner : Nat) (tag : String) (got : Int)
+  | removeNameNothingPending (owner fn : Nat) (got : Int)
+  | removeNameAnswer (owner fn : Nat) (got : Int) (pending : List Int)
+  | findNameNothingPending (owner fn : Nat) (got : Int)
+  | findNameAnswer (owner fn : Nat) (got : Int) (pending : List Int)
+  | infoMismatch (missing extra : List (Nat × Nat × Int))
+  | crash (line : String)
+  | memoryError (line : String)
+  | unexpectedLine (line : String)
+  deriving Repr, DecidableEq
 
 structure JState where
   pend : List Pend := []
-  dead : List String := []
-  handles : List ((String × String) × Int) := []     -- (owner, tag) -> last handle returned
+  dead : List Nat := []
+  handles : List ((Nat × String) × Int) := []        -- (owner, tag) -> last handle returned
   allHandles : List Int := []
   inTick : Bool := false
-  bad : List String := []                            -- newest first
+  bad : List Violation := []                         -- newest first
 
-def JState.flag (s : JState) (v : String) : JState := { s with bad := v :: s.bad }
+def JState.flag (s : JState) (v : Violation) : JState := { s with bad := v :: s.bad }
 
 def removeOne (p : Pend → Bool) : List Pend → Option (Pend × List Pend)
   | [] => none
@@ -39,131 +65,105 @@ def removeOne (p : Pend → Bool) : List Pend → Option (Pend × List Pend)
     if p x then some (x, xs)
     else match removeOne p xs with
       | none => none
-      | some (y, r) => some (y, x :: r)
+      | some r => some (r.1, x :: r.2)
 
-/-- pick the matching pending entry with the smallest due time -/
+/-- pick the matching pending entry with the smallest due time (the first such) -/
 def minDue (p : Pend → Bool) (l : List Pend) : Option Pend :=
   (l.filter p).foldl (fun acc x => match acc with
     | none => some x
     | some y => if x.due < y.due then some x else some y) none
 
-def handleOf (s : JState) (o tag : String) : Int :=
+def handleOf (s : JState) (o : Nat) (tag : String) : Int :=
   match s.handles.find? (fun e => e.1 == (o, tag)) with
   | some e => e.2
   | none => 0
 
-def isDeadJ (s : JState) (o : String) : Bool := s.dead.contains o
+def isDeadJ (s : JState) (o : Nat) : Bool := s.dead.contains o
 
 /-- expected answer of find/remove for entry e at time t; a dead owner's entry whose time has passed may
     already have been dropped by the sweep, so -1 is accepted as well -/
 def answerOk (s : JState) (e : Pend) (t r : Int) : Bool :=
   r == e.due - t || (isDeadJ s e.owner && e.due ≤ t && r == -1)
 
-def judgeLine (s : JState) (line : String) : JState :=
-  match toks line with
-  | [t, "tickbegin"] =>
-    match t.toInt? with
-    | some _ => if s.inTick then s.flag s!"nested-tick {line}" else { s with inTick := true }
-    | none => s.flag s!"malformed {line}"
-  | [t, "tickend"] =>
-    match t.toInt? with
-    | some t =>
-      -- everything due by now (owner alive) must have fired; dead owners' overdue entries are dropped
-      let missed := s.pend.filter (fun e => e.due ≤ t && !isDeadJ s e.owner)
-      let s := missed.foldl (fun s e => s.flag s!"not-fired owner={e.owner} tag={e.tag} due={e.due} tick={t} late={t - e.due}") s
-      { s with inTick := false, pend := s.pend.filter (fun e => e.due > t) }
-    | none => s.flag s!"malformed {line}"
-  | [t, "r", "co", o, f, d, tag, h] =>
-    match t.toInt?, d.toInt?, h.toInt? with
-    | some t, some d, some h =>
-      if isDeadJ s o then
-        if h == 0 then { s with handles := ((o, tag), 0) :: s.handles } else s.flag s!"scheduled-by-destructed {line}"
-      else if h == 0 then s.flag s!"call_out-refused {line}"
-      else
-        let s := if s.allHandles.contains h then s.flag s!"handle-reused {line}" else s
-        let due := t + (if d < 1 then 1 else d)
-        { s with pend := { owner := o, fn := f, tag := tag, due := due, handle := h } :: s.pend,
-                 handles := ((o, tag), h) :: s.handles, allHandles := h :: s.allHandles }
-    | _, _, _ => s.flag s!"malformed {line}"
-  | [t, "fire", o, f, tag] =>
-    match t.toInt? with
-    | some t =>
-      let s := if s.inTick then s else s.flag s!"fire-outside-tick {line}"
-      match minDue (fun e => e.owner == o && e.tag == tag && e.fn == f) s.pend with
-      | none => s.flag s!"fire-unscheduled-removed-or-repeated owner={o} fn={f} tag={tag} at={t}"
-      | some e =>
-        let s := if e.due > t then s.flag s!"fire-early owner={o} tag={tag} due={e.due} at={t} early={e.due - t}" else s
-        let s := if isDeadJ s o then s.flag s!"fire-destructed-owner owner={o} tag={tag}" else s
-        match removeOne (fun x => x == e) s.pend with
-        | some (_, rest) => { s with pend := rest }
-        | none => s
-    | none => s.flag s!"malformed {line}"
-  | [t, "r", "rmh", o, tag, r] =>
-    match t.toInt?, r.toInt? with
-    | some t, some r =>
-      let h := handleOf s o tag
-      match removeOne (fun e => e.handle == h) s.pend with
-      | some (e, rest) =>
-        let s := if answerOk s e t r then s else s.flag s!"remove-handle-answer owner={o} tag={tag} got={r} want={e.due - t}"
-        -- note: an overdue entry can legitimately report -1 (= due - now); it is removed all the same
-        if r == e.due - t then { s with pend := rest } else s
-      | none => if r == -1 then s else s.flag s!"remove-handle-nothing-pending owner={o} tag={tag} got={r}"
-    | _, _ => s.flag s!"malformed {line}"
-  | [t, "r", "fh", o, tag, r] =>
-    match t.toInt?, r.toInt? with
-    | some t, some r =>
-      let h := handleOf s o tag
-      match s.pend.find? (fun e => e.handle == h) with
-      | some e => if answerOk s e t r then s else s.flag s!"find-handle-answer owner={o} tag={tag} got={r} want={e.due - t}"
-      | none => if r == -1 then s else s.flag s!"find-handle-nothing-pending owner={o} tag={tag} got={r}"
-    | _, _ => s.flag s!"malformed {line}"
-  | [t, "r", "rmn", o, f, r] =>
-    match t.toInt?, r.toInt? with
-    | some t, some r =>
-      let cands := s.pend.filter (fun e => e.owner == o && e.fn == f)
-      if cands.isEmpty then
-        if r == -1 then s else s.flag s!"remove-name-nothing-pending owner={o} fn={f} got={r}"
-      else
-        match removeOne (fun e => e.owner == o && e.fn == f && e.due - t == r) s.pend with
-        | some (_, rest) => { s with pend := rest }
-        | none =>
-          if r == -1 && cands.all (fun e => isDeadJ s e.owner && e.due ≤ t) then s
-          else s.flag s!"remove-name-answer owner={o} fn={f} got={r} pending={cands.map (fun e => e.due - t)}"
-    | _, _ => s.flag s!"malformed {line}"
-  | [t, "r", "fn", o, f, r] =>
-    match t.toInt?, r.toInt? with
-    | some t, some r =>
-      let cands := s.pend.filter (fun e => e.owner == o && e.fn == f)
-      if cands.isEmpty then
-        if r == -1 then s else s.flag s!"find-name-nothing-pending owner={o} fn={f} got={r}"
-      else if cands.any (fun e => answerOk s e t r) then s
-      else s.flag s!"find-name-answer owner={o} fn={f} got={r} pending={cands.map (fun e => e.due - t)}"
-    | _, _ => s.flag s!"malformed {line}"
-  | [_t, "r", "rmall", o] =>
+def judgeStep (s : JState) (ev : Ev) : JState :=
+  match ev with
+  | .tickbegin _ => if s.inTick then s.flag (.nestedTick ev) else { s with inTick := true }
+  | .tickend t =>
+    -- everything due by now (owner alive) must have fired; dead owners' overdue entries are dropped
+    let missed := s.pend.filter (fun e => e.due ≤ t && !isDeadJ s e.owner)
+    let s := missed.foldl (fun s e => s.flag (.notFired e.owner e.tag e.due t)) s
+    { s with inTick := false, pend := s.pend.filter (fun e => e.due > t) }
+  | .co t o f d tag h =>
+    if isDeadJ s o then
+      if h == 0 then { s with handles := ((o, tag), 0) :: s.handles } else s.flag (.scheduledByDestructed ev)
+    else if h == 0 then s.flag (.callOutRefused ev)
+    else
+      let s := if s.allHandles.contains h then s.flag (.handleReused ev) else s
+      let due := t + (if d < 1 then 1 else d)
+      { s with pend := { owner := o, fn := f, tag := tag, due := due, handle := h } :: s.pend,
+               handles := ((o, tag), h) :: s.handles, allHandles := h :: s.allHandles }
+  | .fire t o f tag =>
+    let s := if s.inTick then s else s.flag (.fireOutsideTick ev)
+    match minDue (fun e => e.owner == o && e.tag == tag && e.fn == f) s.pend with
+    | none => s.flag (.fireUnscheduled o f tag t)
+    | some e =>
+      let s := if e.due > t then s.flag (.fireEarly o tag e.due t) else s
+      let s := if isDeadJ s o then s.flag (.fireDestructedOwner o tag) else s
+      match removeOne (fun x => x == e) s.pend with
+      | some r => { s with pend := r.2 }
+      | none => s
+  | .rmh t o tag r =>
+    let h := handleOf s o tag
+    match removeOne (fun e => e.handle == h) s.pend with
+    | some x =>
+      let s := if answerOk s x.1 t r then s else s.flag (.removeHandleAnswer o tag r (x.1.due - t))
+      -- note: an overdue entry can legitimately report -1 (= due - now); it is removed all the same
+      if r == x.1.due - t then { s with pend := x.2 } else s
+    | none => if r == -1 then s else s.flag (.removeHandleNothingPending o tag r)
+  | .fh t o tag r =>
+    let h := handleOf s o tag
+    match s.pend.find? (fun e => e.handle == h) with
+    | some e => if answerOk s e t r then s else s.flag (.findHandleAnswer o tag r (e.due - t))
+    | none => if r == -1 then s else s.flag (.findHandleNothingPending o tag r)
+  | .rmn t o f r =>
+    let cands := s.pend.filter (fun e => e.owner == o && e.fn == f)
+    if cands.isEmpty then
+      if r == -1 then s else s.flag (.removeNameNothingPending o f r)
+    else
+      match removeOne (fun e => e.owner == o && e.fn == f && e.due - t == r) s.pend with
+      | some x => { s with pend := x.2 }
+      | none =>
+        if r == -1 && cands.all (fun e => isDeadJ s e.owner && e.due ≤ t) then s
+        else s.flag (.removeNameAnswer o f r (cands.map (fun e => e.due - t)))
+  | .fnm t o f r =>
+    let cands := s.pend.filter (fun e => e.owner == o && e.fn == f)
+    if cands.isEmpty then
+      if r == -1 then s else s.flag (.findNameNothingPending o f r)
+    else if cands.any (fun e => answerOk s e t r) then s
+    else s.flag (.findNameAnswer o f r (cands.map (fun e => e.due - t)))
+  | .rmall _ o =>
     { s with pend := s.pend.filter (fun e => e.owner != o && !isDeadJ s e.owner) }
-  | [_t, "r", "dest", _o, x] =>
+  | .dest _ _ x =>
     if isDeadJ s x then s else { s with dead := x :: s.dead }
-  | _t :: "r" :: "info" :: rows =>
-    match _t.toInt? with
-    | some t =>
-      let want := (s.pend.filter (fun e => !isDeadJ s e.owner)).map (fun e => s!"{e.owner}/co{e.fn}/{e.due - t}")
-      -- multiset equality
-      let missing := want.filter (fun x => want.count x > rows.count x)
-      let extra := rows.filter (fun x => rows.count x > want.count x)
-      if missing.isEmpty && extra.isEmpty then s
-      else s.flag s!"info-mismatch missing={missing} extra={extra}"
-    | none => s.flag s!"malformed {line}"
-  | "err" :: _ => s
-  | ["r", _, "do_op", "!err"] => s
-  | ["r", _, "do_op", "!destructed"] => s
-  | ["r", _, "set_script", "!destructed"] => s
-  | "crash" :: _ => s.flag s!"crash {line}"
-  | "sanitizer" :: _ => s.flag s!"memory-error {line}"
-  | [] => s
-  | _ => s.flag s!"unexpected-line {line}"
+  | .info t rows =>
+    let want := (s.pend.filter (fun e => !isDeadJ s e.owner)).map (fun e => (e.owner, e.fn, e.due - t))
+    -- multiset equality
+    let missing := want.filter (fun x => want.count x > rows.count x)
+    let extra := rows.filter (fun x => rows.count x > want.count x)
+    if missing.isEmpty && extra.isEmpty then s
+    else s.flag (.infoMismatch missing extra)
+  | .err _ => s
+  | .opErr _ => s
+  | .opDestructed _ => s
+  | .setScriptDestructed _ => s
+  | .note _ => s
+  | .crash line => s.flag (.crash line)
+  | .sanitizer line => s.flag (.memoryError line)
+  | .malformed line => s.flag (.malformed line)
+  | .unexpected line => s.flag (.unexpectedLine line)
 
-/-- violations found on a trace, oldest first; `[]` = property held on this trace -/
-def judge (trace : List String) : List String :=
-  (trace.foldl judgeLine {}).bad.reverse
+/-- violations found on a history, oldest first; `[]` = property held on this history -/
+def judgeEv (evs : List Ev) : List Violation :=
+  (evs.foldl judgeStep {}).bad.reverse
 
 end NV.C10
